@@ -24,7 +24,7 @@ META = {
                             'judged_get_concepts', 'judged_lattice_crosscheck'],
     'required_counters': ['judged_fast_generate_from', 'judged_fcbo_dual', 'judged_iterconcepts',
                           'judged_get_concepts', 'judged_lattice_crosscheck', 'judged_items_of_get_concepts',
-                          'interleaved_generator_runs'],
+                          'interleaved_generator_runs', 'suspended_generator_with_foreign_runs'],
     'shards': {'quick': 16, 'thorough': 16},
     'exhaustive': {'quick': 'all 682 boolean tables <= 3x3',
                    'thorough': 'all boolean tables <= 3x3 plus all 3x4, 4x3 and 4x4 tables'},
@@ -193,6 +193,25 @@ def run_case(concepts, case, spec):
             call(list, g1)
             COL.count('interleaved_generator_runs')
     old = POOL.older(rng)
+    if old is not None and rng.random() < .5:
+        # for c in iterconcepts(a): get_concepts(b)  - a run suspended while runs over ANOTHER context
+        # (and out-of-phase runs over the same one) execute
+        for fn in (alg.fast_generate_from, alg.fcbo_dual, alg.iterconcepts):
+            g = call(fn, ctx)
+            if g is RAISED:
+                continue
+            for step, _ in enumerate(g):
+                if step in (1, 3):
+                    call(alg.get_concepts, old)
+                    g2 = call(alg.fcbo_dual, old)
+                    if g2 is not RAISED:
+                        call(list, g2)
+                if step == 2:
+                    g3 = call(fn, ctx)
+                    if g3 is not RAISED:
+                        next(g3, None)
+                        call(list, g3)
+            COL.count('suspended_generator_with_foreign_runs')
     if old is not None:
         for fn in (alg.fast_generate_from, alg.fcbo_dual, alg.get_concepts):
             g = call(fn, old)
@@ -201,8 +220,9 @@ def run_case(concepts, case, spec):
         COL.count('session_requeries')
     POOL.add(ctx)
     # cross-check with context.lattice (driver side, C03 judges the lattice itself)
-    if case.get('deep'):        # Lindig on a 1 000-chain takes minutes: generators only
-        COL.count('deep_cases')
+    if case.get('deep') or case['fam'].startswith('REPEATED'):
+        # Lindig on a 1 000-chain or on hundreds of repeated rows takes minutes: generators only
+        COL.count('cases_without_lattice_crosscheck')
         return
     lat = common.get_lattice(ctx)
     if lat is not RAISED:
